@@ -406,7 +406,8 @@ func c14Gen(r *rand.Rand, tier string) any {
 			sc.Ops = append(sc.Ops, op)
 		}
 	}
-	sc.Ops = append(sc.Ops, opSpec{Op: "gc", Index: r.IntN(2) == 0}, opSpec{Op: "build", Label: pickLabel(r, shadow)})
+	// the last build sometimes runs on the project the collection loaded (a REPL session)
+	sc.Ops = append(sc.Ops, opSpec{Op: "gc"}, opSpec{Op: "build", Label: pickLabel(r, shadow), Keep: r.IntN(2) == 0, Always: r.IntN(2) == 0})
 	return sc
 }
 
